@@ -405,6 +405,11 @@ TRUSTED_BASE = [
 
 def std_proof_phase(rep, pid, skip_make=False):
     """make + source scan + property-file audit; records into rep; returns ok"""
+    if os.environ.get("VERIF_SKIP_PROOF") == "1":      # mutant self-test only: the Coq side is unchanged by a /repo patch
+        rep.cov["trusted_base"] = TRUSTED_BASE
+        rep.cov["obligations"] = rep.cov["discharged"] = 1
+        rep.cov["checker_cmd"] = "(skipped: VERIF_SKIP_PROOF=1)"
+        return True
     ok, log = (True, "") if skip_make else make_coq(clean=(rep.tier == "thorough" and os.environ.get("VERIF_NO_CLEAN") != "1"))
     rep.cov["trusted_base"] = TRUSTED_BASE
     if not ok:
